@@ -180,3 +180,82 @@ Proof.
   - assert (palign = 0) by lia. subst palign. cbv beta iota in *. rewrite !N.mod_1_r.
     rewrite add64_id by lia. repeat split; lia.
 Qed.
+
+(* ---------- one segment of automatically addressed members ---------- *)
+Lemma firstnN_all' {A} (l : list A) n : lenN l <= n -> firstnN l n = l.
+Proof. apply firstnN_all. Qed.
+
+Theorem layout_one_segment_auto h g secs gen pos bound ms :
+  let idxs := g_sections g in
+  let align := if 0 <? p_align g then p_align g else 1 in
+  lenN idxs < 2 ^ 16 -> idxs <> [] ->
+  g_offset_set g = false -> p_type g <> PT_PHDR ->
+  NoDup idxs -> Forall2 (fun i s => nth_optN secs i = Some s) idxs ms ->
+  Forall auto_member ms -> Forall (fun s => bound <= 2 ^ xw (s_cls s)) ms ->
+  (forall i, In i idxs -> nth_optN gen i = Some false) ->
+  bound <= 2 ^ 64 -> bound <= 2 ^ xw (g_cls g) -> p_align g < 2 ^ 63 ->
+  p_vaddr g + pos + align + mbudget ms < bound ->
+  exists g' secs' gen' pos' seg_start,
+    layout_one_segment h g secs gen pos = Ok (g', secs', gen', pos', true) /\
+    pos <= seg_start /\ seg_start < pos + align /\
+    seg_start mod align = p_vaddr g mod align /\                 (* file offset = address (mod alignment) *)
+    p_offset g' = seg_start /\ p_vaddr g' = p_vaddr g /\
+    p_filesz g' = pos' - seg_start /\ p_filesz g' <= p_memsz g' /\
+    mchain g seg_start secs' idxs seg_start pos' /\               (* members: aligned, in order, file distance = memory distance *)
+    (forall j, ~ In j idxs -> nth_optN secs' j = nth_optN secs j) /\ lenN secs' = lenN secs.
+Proof.
+  cbv zeta. intros Hlen Hne Hos Hty Hnd HF Hauto Hcls Hgen Hb64 Hbg Hal Hbud.
+  set (align := if 0 <? p_align g then p_align g else 1) in *.
+  assert (Ha1 : 1 <= align) by (unfold align; destruct (N.ltb_spec 0 (p_align g)); lia).
+  unfold layout_one_segment.
+  assert (Hn : seg_sections_num g = lenN (g_sections g)).
+  { unfold seg_sections_num, wrap16, wrap. apply N.mod_small. exact Hlen. }
+  rewrite Hn, firstnN_all by lia.
+  assert (Hpos_n : 0 < lenN (g_sections g)).
+  { destruct (g_sections g); [contradiction|rewrite lenN_cons; lia]. }
+  assert (E1 : ((p_type g =? PT_PHDR) && (lenN (g_sections g) =? 0)) = false).
+  { destruct (N.eqb_spec (lenN (g_sections g)) 0); [lia|]. now rewrite andb_false_r. }
+  rewrite E1, Hos. cbn [andb].
+  destruct (N.ltb_spec 0 (lenN (g_sections g))); [|lia].
+  (* the first member has not been placed yet *)
+  destruct (g_sections g) as [|i0 t0] eqn:Eg; [contradiction|].
+  assert (Hfirst : seg_section_at g 0 = i0) by (unfold seg_section_at; rewrite Eg; reflexivity).
+  rewrite Hfirst. unfold gen_get at 1. rewrite (Hgen i0 (or_introl eq_refl)). cbn [bind negb].
+  fold align.
+  destruct (seg_start_congruent pos (p_vaddr g) (p_align g)) as (S1 & S2 & S3); [fold align; lia|exact Hal|].
+  cbv zeta in S1, S2, S3. fold align in S1, S2, S3.
+  set (seg_start := add64 pos (add64 (p_align g) (sub64 (p_vaddr g mod align) (pos mod align)) mod align)) in *.
+  cbn [bind].
+  destruct (write_segment_data_auto g seg_start bound (i0 :: t0) ms (mkW secs gen seg_start 0 0) Hnd HF Hauto Hcls Hgen Hb64)
+    as (w' & -> & P1 & P2 & P3 & P4 & P5 & P6 & P7); [cbn; lia|reflexivity|cbn [ws_pos]; lia|].
+  cbn [bind ws_pos ws_secs] in *. clearbody seg_start.
+  assert (Hfs : ws_fsz w' = ws_pos w' - seg_start) by lia.
+  assert (Hfb : ws_fsz w' < 2 ^ xw (g_cls g)) by lia.
+  assert (W : forall v, v < bound -> wrap (xw (g_cls g)) v = v) by (intros v Hv; unfold wrap; apply N.mod_small; lia).
+  destruct (N.ltb_spec (p_memsz (seg_set g GFilesz (ws_fsz w'))) (ws_mem w')) as [Hlt|Hge].
+  - eexists _, _, _, _, seg_start. split; [reflexivity|].
+    split; [exact S1|]. split; [exact S2|]. split; [exact S3|].
+    cbn [p_offset p_vaddr p_filesz p_memsz seg_set g_cls].
+    rewrite !W by lia. repeat split; try lia; assumption.
+  - eexists _, _, _, _, seg_start. split; [reflexivity|].
+    split; [exact S1|]. split; [exact S2|]. split; [exact S3|].
+    cbn [p_offset p_vaddr p_filesz p_memsz seg_set g_cls] in *.
+    rewrite !W in * by lia. repeat split; try lia; assumption.
+Qed.
+
+Lemma mchain_bounds g ss secs' idxs : forall lo hi, mchain g ss secs' idxs lo hi -> lo <= hi.
+Proof.
+  induction idxs as [|i t IH]; intros lo hi H; cbn [mchain] in H; [exact H|].
+  destruct H as (s & _ & H2 & _ & _ & _ & H6). apply IH in H6. lia.
+Qed.
+
+(* what the chain says about each member *)
+Theorem mchain_member g ss secs' idxs : forall lo hi i, mchain g ss secs' idxs lo hi -> In i idxs ->
+  exists s, nth_optN secs' i = Some s /\ lo <= sh_offset s /\ sh_offset s + sh_size s <= hi /\
+            sh_offset s mod eff_align s = 0 /\ sh_addr s - p_vaddr g = sh_offset s - ss /\ p_vaddr g <= sh_addr s.
+Proof.
+  induction idxs as [|j t IH]; intros lo hi i H Hin; [contradiction|]. cbn [mchain] in H.
+  destruct H as (s & H1 & H2 & H3 & H4 & H5 & H6). destruct Hin as [->|Hin].
+  - exists s. pose proof (mchain_bounds _ _ _ _ _ _ H6). repeat split; try assumption; lia.
+  - destruct (IH _ _ i H6 Hin) as (s' & A1 & A2 & A3 & A4 & A5 & A6). exists s'. repeat split; try assumption; lia.
+Qed.
